@@ -56,6 +56,9 @@ def run(ctx, obs):
     for fn in ('compare_spearman', 'compare_rho_a', 'compare_correlation', 'compare_cosine', 'compare_kendall_tau',
                'compare_kendall_tau_a'):
         sym_operands(ctx, obs, 'rdm.compare.' + fn, source_leaf='_parse_input_rdms')
+    from ..rules.ranks import ranked_on_all_paths
+    for fn in ('compare_spearman', 'compare_rho_a'):
+        ranked_on_all_paths(ctx, obs, 'rdm.compare.' + fn)
 
 
 def _ctor(f):
